@@ -14,7 +14,7 @@ from props import _design
 
 TITLE = "distinct sequences, min(requested, available) of them"
 LEVEL = "proof"
-DOMAINS = ['Design']
+DOMAINS = ["Design", "Iterate"]
 STRATS = ("IterateSATGen", "RandomGen", "IterateGen")
 
 
@@ -36,12 +36,77 @@ def check(p, oracle_mult, names, strat, n):
     return None
 
 
+def loop_correspondence(ctx, res):
+    """The real compute_solutions loop on random small CNF files vs the model
+    Sample/Iterate.v replaying the real solver's answers; and independently: the
+    returned solutions are pairwise different projections of models, as many as
+    min(count, number of projected models)."""
+    import itertools
+    import shutil
+    import tempfile
+    from pathlib import Path
+    from common import sexp, Atom, parse_sexp, Violation
+    from sweetpea._internal.core.cnf import CNF
+    from sweetpea._internal.core.generate.utility import save_cnf
+    from sweetpea._internal.core.generate.sample_non_uniform import compute_solutions
+    rng = ctx.rng
+    tmp = tempfile.mkdtemp(prefix="verif_c09_")
+    lines, reals, cases = [], [], []
+    try:
+        for i in range(120 if ctx.quick else 1500):
+            nv = rng.randint(2, 6)
+            cls = [[rng.choice([-1, 1]) * rng.randint(1, nv) for _ in range(rng.randint(1, 3))] for _ in range(rng.randint(1, 6))]
+            cls.append([nv, -nv])
+            support = rng.randint(1, nv)
+            count = rng.randint(0, 10)
+            path = Path(tmp) / ("f%d.cnf" % i)
+            save_cnf(path, CNF(cls), nv, support)
+            with ir.quiet():
+                sols = compute_solutions(path, support, count)
+            final = []
+            for ln in path.read_text().splitlines()[1:]:
+                toks = ln.split()
+                if toks and toks[0] not in ("c", "p"):
+                    final.append([int(t) for t in toks[:-1]])
+            reals.append(sols)
+            cases.append((cls, nv, support, count, final))
+            lines.append(sexp([Atom("iterate"), support, count, cls, sols]))
+    finally:
+        shutil.rmtree(tmp, ignore_errors=True)
+    outs = ctx.model(lines, domain="Iterate")
+    bad = []
+    for (cls, nv, support, count, final), sols, out in zip(cases, reals, outs):
+        ok = (not out.startswith("!")) and parse_sexp(out)[0] == sols
+        # the file after the loop = the printed clauses (reversed order of the CNF object) + one blocking clause per solution
+        expect = list(reversed(cls)) + [[-l for l in s] for s in sols]
+        ok = ok and final == expect
+        res.layer("loop-model-vs-real", ok)
+        res.count(("loop", repr(cls), support, count))
+        if not ok:
+            bad.append((cls, support, count, sols))
+        # the property itself
+        proj = set()
+        for a in itertools.product([False, True], repeat=nv):
+            if all(any((a[abs(l) - 1] if l > 0 else not a[abs(l) - 1]) for l in c) for c in cls):
+                proj.add(tuple((v if a[v - 1] else -v) for v in range(1, support + 1)))
+        got = [tuple(s) for s in sols]
+        if len(got) != min(count, len(proj)) or len(set(got)) != len(got) or not set(got) <= proj:
+            res.violations.append(Violation("loop:compute_solutions", "compute_solutions returned %d of %d projected models for count %d" % (
+                len(got), len(proj), count), {"kind": "loop", "cnf": cls, "nvars": nv, "support": support, "count": count}))
+            return
+    if bad:
+        res.violations.append(Violation("corr:iterate", "model Sample/Iterate.v and compute_solutions disagree on %d cases, e.g. %r" % (len(bad), bad[0]),
+                                        {"layer": "loop-model-vs-real", "theorems": ["C09_iterate_spec"]}, failing_input=False))
+    res.sample({"iterate": lines[0], "model_out": outs[0]})
+
+
 def run(ctx, res):
+    loop_correspondence(ctx, res)
     batch = _design.load(ctx, res)
     done = 0
     for r in _design.analysed(batch):
         _design.count(res, r)
-        if "oracle" not in r or done >= (45 if ctx.quick else 400):
+        if "oracle" not in r or done >= (18 if ctx.quick else 400):
             continue
         mult = collections.Counter()
         for k, m in zip(r["oracle"], r["oracle_mult"]):
@@ -71,6 +136,8 @@ def run(ctx, res):
 
 
 def replay(ctx, data):
+    if data.get("kind") == "loop":
+        return True
     p = data["program"]
     rr = _design.reanalyse(p, ())
     if rr["build"] != "ok" or rr["doc"] != "ok":
